@@ -376,6 +376,12 @@ def r5(ctx):
         enc = [e for e in p.events if e.kind == "call" and e.name == CODEC + "::encode_message"]
         wa = [e for e in p.events if e.kind == "await" and "write_all" in repr(tform(e.args[0]))]
         ok = len(enc) == 1 and tform(enc[0].args[1]) == P("msg") and len(wa) == 1 and enc[0].result in atoms(wa[0].args[0]) and F(P("self"), "stream") in atoms(wa[0].args[0])
+        # ... and the write is known to have succeeded on this path: its result was examined and found Ok, or is handed back
+        # as the function's own result (an error swallowed with .ok() / let _ = makes write report success for a lost response)
+        if ok:
+            wres = wa[0].result
+            examined = d2(p, wres) == 0 or tform(p.ret) == wres or wres in atoms(tform(p.ret))
+            ok = examined
         rep.check(ok, "write:encoded-message-written", "Ok(()) only after write_all(encode_message(msg)) on the stream was awaited", "MemcacheBinaryConnection::write can return Ok without having written the encoded response to the socket (%d encode_message, %d awaited write_all): a response can be lost or delayed past a later shutdown, or overtaken" % (len(enc), len(wa)), b.loc())
     rep.check(n_ok > 0, "write:ok-path", "write has a success path", "cannot find a success path of MemcacheBinaryConnection::write", b.loc())
     # nobody else writes to the socket
